@@ -40,8 +40,6 @@ Definition guard (inp : input) : bool :=
   && implb (has_postcompile inp) (i_pc inp)
   (* distinct binds keep distinct names after escaping *)
   && forallb (fun a => forallb (fun b => implb (str_eqb (esc tab a) (esc tab b)) (str_eqb a b)) order) order
-  (* a literal_execute bind has a name that needs no escaping *)
-  && forallb (fun n => match kind_of inp n with LitExec => negb (needs_esc tab n) | _ => true end) order
   (* values have the shape of their bind *)
   && forallb (shape_ok inp) order
   && nodupb (keys (i_params inp)) && forallb (fun k => memb k order) (keys (i_params inp))
@@ -60,7 +58,6 @@ Record wf (inp : input) : Prop := {
   w_pc : forall n, In (PC n) (i_toks inp) -> In n (i_order inp) /\ kind_of inp n <> Plain;
   w_haspc : has_postcompile inp = true -> i_pc inp = true;
   w_inj : forall a b, In a (i_order inp) -> In b (i_order inp) -> esc tab a = esc tab b -> a = b;
-  w_lit : forall n, In n (i_order inp) -> kind_of inp n = LitExec -> needs_esc tab n = false;
   w_plain : forall n, In n (i_order inp) -> kind_of inp n = Plain -> exists v, dget n (i_params inp) = Some (PS v);
   w_expand : forall n, In n (i_order inp) -> kind_of inp n = Expand -> exists l, dget n (i_params inp) = Some (PL l);
   w_litv : forall n, In n (i_order inp) -> kind_of inp n = LitExec -> exists v, dget n (i_params inp) = Some v;
@@ -89,10 +86,9 @@ Proof.
   apply andb_true_iff in H. destruct H as [H G4].
   apply andb_true_iff in H. destruct H as [H G5].
   apply andb_true_iff in H. destruct H as [H G3].
-  apply andb_true_iff in H. destruct H as [H G2].
   apply andb_true_iff in H. destruct H as [H G1].
   apply andb_true_iff in H. destruct H as [G0 G6].
-  rewrite forallb_forall in G0, G1, G2, G3, G4, G7, G.
+  rewrite forallb_forall in G0, G1, G3, G4, G7, G.
   constructor.
   - intros n Hn. specialize (G0 _ Hn). cbn [tok_ok] in G0. apply andb_true_iff in G0. destruct G0 as [A B].
     apply memb_In in A. split; [exact A|]. destruct (kind_of inp n); cbn in B; congruence.
@@ -101,7 +97,6 @@ Proof.
   - intro Hp. rewrite Hp in G6. exact G6.
   - intros a b Ha Hb He. specialize (G1 _ Ha). rewrite forallb_forall in G1. specialize (G1 _ Hb).
     rewrite He, str_eqb_refl in G1. cbn [implb] in G1. apply str_eqb_eq. exact G1.
-  - intros n Hn Hk. specialize (G2 _ Hn). rewrite Hk in G2. apply negb_true_iff in G2. exact G2.
   - intros n Hn Hk. specialize (G3 _ Hn). unfold shape_ok in G3. rewrite Hk in G3.
     destruct (dget n (i_params inp)) as [[v|l]|]; try discriminate. exists v. reflexivity.
   - intros n Hn Hk. specialize (G3 _ Hn). unfold shape_ok in G3. rewrite Hk in G3.
